@@ -852,3 +852,59 @@ package server
 //@   requires s != nil && msg != nil
 //@   modifies steps, perCall
 //@   ensures [json-reply] result2 == nil && msg.OutputType == JSON ==> jsonDoc(result0)
+
+// ---- webhook queue mechanics (C10, the part inside one function) ------------------------------------------
+// queueHooks: the webhook messages of one write are stored under consecutive queue indexes, in the order of the sorted
+// message slice, the index counter advances by exactly their number and "hook:idx" records it, all in one transaction.
+// Hook.proc: the queued entries of the hook are sent in key order, each successful send exactly once, and at the first
+// entry no endpoint accepts, that entry and all later ones are put back under their original keys (while they have TTL
+// left); nothing before it is sent again, nothing after it is sent.
+//@ ghost func u64str(n int) string
+//@ axiom u64str.injective: allint(a, allint(b, 0 <= a && 0 <= b && u64str(a) == u64str(b) ==> a == b))
+//@ func uint64ToString
+//@   modifies nothing
+//@   ensures [ghost-def.u64str] result == u64str(u)
+// strings: a common prefix cancels (fact of the byte-string theory, trusted)
+//@ axiom cat.cancel: allstr(p, allstr(a, allstr(b, cat(p, a) == cat(p, b) ==> a == b)))
+//@ ghost macro hookKey(n) = cat("hook:log:", u64str(n))
+//@ ghost scratch qidx0 int
+//@ func Server.queueHooks
+//@   frame-by-effects
+//@   uses u64str.injective, buntdb.update.once, cat.cancel
+//@   entry-assume s.qdb != nil && 0 <= s.qidx && s.qidx < 9223372036854775808
+//@   requires s != nil
+//@   modifies steps, perCall
+//@   set-at-call buntdb.DB.Update#1 qidx0 = s.qidx
+//@   loop 3 invariant idx3 == 0 ==> s.qidx == qidx0 && 0 <= qidx0 && qidx0 < 9223372036854775808
+//@   loop 4 invariant s.qidx == qidx0 + idx4 && forall(j, 0, idx4, qdbm[hookKey(qidx0 + 1 + j)] == wmsgs[j])
+//@   at-call buntdb.Tx.Set#1 [consecutive-index] arg0 == hookKey(qidx0 + 1 + idx4) && arg1 == wmsgs[idx4]
+//@   at-call buntdb.Tx.Set#2 [all-queued-in-order] s.qidx == qidx0 + len(wmsgs) && forall(j, 0, len(wmsgs), qdbm[hookKey(qidx0 + 1 + j)] == wmsgs[j])
+//@   at-call buntdb.Tx.Set#2 [index-recorded] arg0 == "hook:idx" && arg1 == u64str(s.qidx)
+
+//@ ghost var sentLog []string
+//@ ghost scratch sl0 int
+//@ ghost scratch k0 []string
+//@ ghost scratch v0 []string
+//@ func stringToUint64
+//@   modifies nothing
+//@ func Hook.proc
+//@   frame-by-effects
+//@   uses buntdb.update.once
+//@   requires h != nil && h.db != nil && h.epm != nil && h.counter != nil
+//@   modifies steps, perCall, sentLog
+//@   set-at-call time.Now#1 sl0 = len(sentLog)
+//@   loop 1 invariant len(sentLog) == sl0 && len(keys) == len(vals)
+//@   closure 1 invariant len(sentLog) == sl0 && len(keys) == len(vals)
+//@   loop 2 invariant len(sentLog) == sl0 && len(keys) == len(vals)
+//@   loop 3 invariant len(keys) == rlen3 && len(keys) == len(vals) && len(sentLog) == sl0 + idx3 && forall(j, 0, idx3, sentLog[sl0 + j] == vals[j])
+//@   loop 4 invariant [a] idx3 < len(vals)
+//@   loop 4 invariant [b] val == vals[idx3]
+//@   loop 4 invariant [c] forall(j, 0, idx3, sentLog[sl0 + j] == vals[j])
+//@   loop 4 invariant [d] len(keys) == len(vals) && len(keys) == rlen3
+//@   loop 4 invariant [not-yet-sent] !sent && len(sentLog) == sl0 + idx3
+//@   at-call endpoint.Manager.Send#1 [sends-current-entry-once] !sent && arg1 == vals[idx3]
+//@   set-at-call stringToUint64#1 k0 = keys
+//@   set-at-call stringToUint64#1 v0 = vals
+//@   at-call buntdb.DB.Update#2 [puts-back-the-unsent-suffix] len(keys) == len(k0) - idx3 && len(vals) == len(keys)
+//@   at-call buntdb.Tx.Set#1 [puts-back-under-original-key] arg0 == k0[idx3 + idx6] && arg1 == v0[idx3 + idx6]
+//@   at-return [all-sent-once-in-order] ok ==> len(sentLog) == sl0 + len(vals) && forall(j, 0, len(vals), sentLog[sl0 + j] == vals[j])
